@@ -101,7 +101,8 @@ class MapSpec:
         for k, e in self.m.items():
             for n in range(1, len(k) + 1):
                 nodes.setdefault(k[:n], "")
-            nodes[k] = ("|P:" + "j" + e[1].encode().hex()) if e[0] == "P" else ("|C%d:" % e[2] + "j" + e[1].encode().hex())
+            # a CAS entry with version 0 (only reachable through the file format, F8) reads like a plain one through cget
+            nodes[k] = ("|P:" + "j" + e[1].encode().hex()) if (e[0] == "P" or e[2] == 0) else ("|C%d:" % e[2] + "j" + e[1].encode().hex())
         items = sorted((("-" if not p else xs("/".join(p))) + t) for p, t in nodes.items())
         return "dump len=%d nodes=[%s]" % (len(self.m), ";".join(items))
 
